@@ -15,7 +15,8 @@ import time
 ROOT = os.path.dirname(os.path.dirname(os.path.abspath(__file__)))
 LEAN = os.path.join(ROOT, "lean")
 REPO = os.environ.get("KOJEN_REPO", "/repo")
-EVID = os.path.join(ROOT, "evidence")
+# mutation runs (harness/mutrun.py) redirect the evidence so that the committed files describe the real tree only
+EVID = os.environ.get("KOJEN_VERIF_EVIDENCE_DIR") or os.path.join(ROOT, "evidence")
 REPLAY = os.path.join(ROOT, "replay")
 CORPUS = os.path.join(ROOT, "corpus")
 KNOWN = os.path.join(ROOT, "known_findings.txt")
